@@ -157,7 +157,13 @@ func runListenerHistory(r *vrng, h lhist) (sig, desc string, summary string) {
 	prev := runtime.GOMAXPROCS(h.procs)
 	defer runtime.GOMAXPROCS(prev)
 	hrec := startHookRec("l.")
-	defer func() { lastListenerTrace.ev = hrec.stop() }()
+	defer func() {
+		// late reports: wait (bounded) until the log is complete before it is judged
+		for t0 := time.Now(); !hrec.listenerComplete() && time.Since(t0) < 3*time.Second; {
+			time.Sleep(2 * time.Millisecond)
+		}
+		lastListenerTrace.ev = hrec.stop()
+	}()
 	base := runtime.NumGoroutine()
 	inner, err := net.Listen("tcp", "127.0.0.1:0")
 	if err != nil {
